@@ -75,7 +75,7 @@ type sSet struct {
 	points  []sPoint
 	exps    []time.Time // experiment instants (distinct)
 	expPts  [][]int     // experiment -> covered points
-	expTab  [][2]string
+	expTab  [][][2]string // experiment -> tables it ran on (the same run stamp can occur on two builders)
 	results []sResult
 	// model: (unit, table, bench, point, exp) -> numerator values; (unit, table, bench, exp) -> denominator values
 	num map[string][]float64
@@ -133,7 +133,11 @@ func sGenSet(T *sim.Tape, allowNoDen bool) *sSet {
 				}
 			}
 			s.expPts = append(s.expPts, pts)
-			s.expTab = append(s.expTab, tables[T.Intn(len(tables), "table")])
+			et := [][2]string{tables[T.Intn(len(tables), "table")]}
+			if len(tables) > 1 && T.Intn(3, "exp-on-both-tables") == 0 {
+				et = tables
+			}
+			s.expTab = append(s.expTab, et)
 			ne++
 		}
 	}
@@ -147,8 +151,8 @@ func sGenSet(T *sim.Tape, allowNoDen bool) *sSet {
 		s.pspell[p] = sp[spellIdx(len(sp))]
 	}
 	for e := range s.exps {
+	  for _, tab := range s.expTab[e] {
 		pts := s.expPts[e]
-		tab := s.expTab[e]
 		var prevNum, prevDen [][]float64 // per unit, for the mirror benchmark
 		for bi := 0; bi < nb; bi++ {
 			if bi > 0 && T.Intn(5, "bench-missing") == 0 {
@@ -157,6 +161,9 @@ func sGenSet(T *sim.Tape, allowNoDen bool) *sSet {
 			bench := sBenches[bi]
 			nlines := 1 + T.Intn(6, "nlines")
 			scale := float64(1+T.Intn(500, "scale")) * math.Pow(10, float64(T.Intn(5, "mag")-2))
+			if T.Intn(12, "tiny") == 0 {
+				scale *= 1e-17 // custom fraction-per-op metrics can be this small; ratios are scale-free
+			}
 			mkVals := func() [][]float64 { // [unit][line]
 				out := make([][]float64, nu)
 				for u := range out {
@@ -199,6 +206,7 @@ func sGenSet(T *sim.Tape, allowNoDen bool) *sSet {
 				s.results = append(s.results, res)
 			}
 		}
+	  }
 	}
 	return s
 }
@@ -324,17 +332,38 @@ func (s *sSet) modelDump(withTable bool, policy int) string {
 		any := false
 		// trials exist for every (bench, exp) with any measurement of this unit/table, numerator or denominator
 		for e := range s.exps {
-			etab := fmt.Sprint(s.expTab[e])
-			if withTable && etab != t.table {
+		  // without table keys the measurements of one experiment on several builders pool into one trial
+		  groups := [][][2]string{}
+		  if withTable {
+			for _, et := range s.expTab[e] {
+				groups = append(groups, [][2]string{et})
+			}
+		  } else {
+			groups = append(groups, s.expTab[e])
+		  }
+		  for _, grp := range groups {
+			if withTable && fmt.Sprint(grp[0]) != t.table {
 				continue
 			}
 			for _, bench := range sBenches {
-				dk := fmt.Sprintf("%s|%s|%s|%d", t.unit, etab, bench, e)
-				den, hasDen := s.den[dk]
+				var den []float64
+				hasDen := false
+				for _, et := range grp {
+					if d, ok := s.den[fmt.Sprintf("%s|%s|%s|%d", t.unit, fmt.Sprint(et), bench, e)]; ok {
+						den = append(den, d...)
+						hasDen = true
+					}
+				}
 				hasAny := hasDen
 				for _, pi := range s.expPts[e] {
-					nk := fmt.Sprintf("%s|%s|%s|%d|%d", t.unit, etab, bench, pi, e)
-					num, ok := s.num[nk]
+					var num []float64
+					ok := false
+					for _, et := range grp {
+						if n, have := s.num[fmt.Sprintf("%s|%s|%s|%d|%d", t.unit, fmt.Sprint(et), bench, pi, e)]; have {
+							num = append(num, n...)
+							ok = true
+						}
+					}
 					if !ok {
 						continue
 					}
@@ -371,6 +400,7 @@ func (s *sSet) modelDump(withTable bool, policy int) string {
 					any = true
 				}
 			}
+		  }
 		}
 		if !any {
 			continue
@@ -424,7 +454,9 @@ func setList(m map[string]bool) []string {
 var c18Tmp string
 
 // sBuild adds the set in the given order and returns the series.
-func sBuild(t *testing.T, r *sim.Run, s *sSet, order []int, withTable bool, policy int, viaFiles bool) ([]*ComparisonSeries, string) {
+// sBuild adds the results in the given order; midBuild >= 0 calls AllComparisonSeries once more after that many
+// results (a long-lived Builder that is asked for its series, then fed more data).
+func sBuild(t *testing.T, r *sim.Run, s *sSet, order []int, withTable bool, policy int, viaFiles bool, midBuild ...int) ([]*ComparisonSeries, string) {
 	var warns []string
 	b, err := NewBuilder(sOpts(withTable, &warns))
 	if err != nil {
@@ -463,9 +495,18 @@ func sBuild(t *testing.T, r *sim.Run, s *sSet, order []int, withTable bool, poli
 			txt.WriteString(s.results[ri].text())
 		}
 		rd := benchfmt.NewReader(strings.NewReader(txt.String()), "set")
+		nadded := 0
 		for rd.Scan() {
 			switch rec := rd.Result().(type) {
 			case *benchfmt.Result:
+				if len(midBuild) > 0 && nadded == midBuild[0] {
+					if mid, err := b.AllComparisonSeries(nil, policy); err == nil {
+						for _, cs := range mid {
+							cs.AddSummaries(0.9, 50)
+						}
+					}
+				}
+				nadded++
 				b.Add(rec)
 			case *benchfmt.SyntaxError:
 				r.Fail("harness", "syntax", "generated text has a syntax error: %v", rec)
@@ -553,7 +594,24 @@ func c18Run(t *testing.T, r *sim.Run, tier string) {
 	// bootstrap summaries: sane and reproducible
 	conf := []float64{0.5, 0.9, 0.95, 0.99}[T.Intn(4, "confidence")]
 	N := []int{50, 100, 200}[T.Intn(3, "resamples")]
-	again, _ := sBuild(t, r, s, T.Perm(len(s.results), "add-order"), withTable, policy, false)
+	mid := -1
+	if T.Intn(3, "incremental-builder") == 0 && policy == DUPE_REPLACE { // a partial set may lack denominators, which COMBINE cannot handle (documented gap)
+		mid = 1 + T.Intn(len(s.results), "mid-build-at")
+		r.Hit("series requested from a builder that was later fed more results")
+	}
+	var again []*ComparisonSeries
+	if mid >= 0 {
+		var errs string
+		again, errs = sBuild(t, r, s, T.Perm(len(s.results), "add-order"), withTable, policy, false, mid)
+		if errs != "" {
+			r.Fail("series", "unexpected-error", "AllComparisonSeries failed on an incrementally fed builder: %s", errs)
+		}
+		if d := sDump(again, true); d != ref {
+			r.Fail("series", r.Lane+"/incremental-builder-differs", "a builder asked for its series after %d results and then fed the rest gives different series than a fresh builder given the same set", mid)
+		}
+	} else {
+		again, _ = sBuild(t, r, s, T.Perm(len(s.results), "add-order"), withTable, policy, false)
+	}
 	for ci, cs := range refCSS {
 		cs.AddSummaries(conf, N)
 		again[ci].AddSummaries(conf, N)
